@@ -625,7 +625,7 @@ func (fr *Frame) rangeOverFunc(st *State, it Term, mc *ssa.MakeClosure, yf *ssa.
 	ef := &effects{sorts: map[Sort][]Term{}, unk: map[Sort]bool{}, ghostVars: map[string]bool{}, fresh: map[Sort]bool{}, exact: map[Sort][]Term{}}
 	fr.yieldEffects(yf, mc, binds, ef)
 	if ef.all {
-		vc.havocAll(hs)
+		vc.havocAllLoop(hs)
 	} else {
 		var sl []string
 		for _, s := range sortedKeys(ef.sorts) {
